@@ -13,6 +13,8 @@ type Case struct {
 	Texts [][]byte `json:"texts,omitempty"` // inputs for Run
 	// sources compiled (results ignored) in the same process BEFORE the case proper: history for what follows
 	Prelude [][]byte `json:"prelude,omitempty"`
+	// astcmp: indices of Srcs to compile through CompileFile (written to a scratch file first) instead of Compile
+	ViaFile []int `json:"via_file,omitempty"`
 
 	// budgets (0 = default)
 	StepBudget int `json:"step_budget,omitempty"`
